@@ -435,13 +435,14 @@ IT = "pandapipes.pf.internals_toolbox"
 def sum_by_group_bounded(ctx):
     """bounded stand-in (cumsum/out=/argsort code is outside the subset): both implementations against the
     group-sum specification used as their contract in C01/C03/C09"""
-    res = venv_run("bounded.py", {"what": "sum_by_group"}, timeout=1500)
+    max_len = 6 if ctx.tier == "thorough" else 4
+    res = venv_run("bounded.py", {"what": "sum_by_group", "max_len": max_len}, timeout=3000)
     ctx.bounded("numpy-and-numba-equal-group-sums", res["ok"],
-                scope="index vectors of length 0..5 over labels {0,1,2,7,99999,100000,300000} (both sides of the 1e5 switch), "
+                scope="index vectors of length 0..%d over labels {0,1,2,7,99999,100000,300000} (both sides of the 1e5 switch), "
                       "values 2^k and 1 (sums identify the summed subset exactly), use_numba False/True; output keys sorted "
-                      "and unique, input not modified",
+                      "and unique, input not modified" % max_len,
                 cases=res["cases"], witness=res.get("witness"),
-                replay={"handler": "bounded", "input": {"what": "sum_by_group"}} if not res["ok"] else None)
+                replay={"handler": "bounded", "input": {"what": "sum_by_group", "max_len": max_len}} if not res["ok"] else None)
 
 
 @unit("C06", "bounded/relabel_pipeline", functions=[RX + ":extract_branch_results_with_internals",
